@@ -760,6 +760,77 @@ def use_tie(ctx: vlib.Ctx):
     ctx.count(n=len(cases))
 
 
+# ---------------------------------------------------------------------------
+# helpers.literal_repr (round 6): the table K116a read from /repo, interpreted by LitRepr.v, vs the
+# real function on real objects (exact builtin values and instances of subclasses whose __repr__ is
+# adversarial text)
+# ---------------------------------------------------------------------------
+
+def literal_repr_tie(ctx: vlib.Ctx):
+    rng = ctx.rng
+    n = ctx.budget(150, 1500)
+    try:
+        from mashumaro.core.meta.helpers import literal_repr
+    except Exception as e:
+        ctx.not_shown("helpers.literal_repr", f"cannot import: {type(e).__name__}: {e}")
+        return
+
+    def sub(base, payload, text):
+        ns = {} if text is None else {"__repr__": (lambda self, _t=text: _t)}
+        return type("Sub" + base.__name__, (base,), ns)(payload)
+    objs = []       # (object, payload, exact, own repr text)
+    strings = list(CORPUS[: n // 3])
+    while len(strings) < n:
+        strings.append(rand_string(rng, 8))
+    for i, s in enumerate(strings):
+        evil = rng.choice(FRAGMENTS) if i % 2 else rand_string(rng, 8)
+        kind = i % 6
+        if kind in (0, 1):
+            objs.append((s, s, True, ""))
+            objs.append((sub(str, s, evil), s, False, evil))
+        elif kind == 2:
+            b = s.encode("utf-8", "surrogatepass")
+            objs.append((b, b, True, ""))
+            objs.append((sub(bytes, b, evil), b, False, evil))
+        elif kind == 3:
+            z = rng.choice([0, 1, -1, 7, 255, -(2 ** 63), 10 ** 30, rng.randrange(-10 ** 6, 10 ** 6)])
+            objs.append((z, z, True, ""))
+            objs.append((sub(int, z, evil), z, False, evil))
+        elif kind == 4:
+            objs.append((sub(str, s, None), s, False, repr(s)))      # subclass without an override
+        else:
+            v = rng.choice([True, False, None])
+            objs.append((v, v, True, ""))
+    cases, shown, texts = [], [], []
+    for o, payload, exact, own in objs:
+        try:
+            t = literal_repr(o)
+        except Exception as e:
+            ctx.not_shown("helpers.literal_repr raised", f"{type(o).__name__}({payload!r}): {type(e).__name__}: {e}")
+            continue
+        if not isinstance(t, str):
+            ctx.not_shown("helpers.literal_repr returned a non-string", repr(t)[:100])
+            continue
+        texts.append(t)
+        cases.append(f"(({coq_lit(payload)}, {'true' if exact else 'false'}, {coq_nl(cps(own))}), {coq_nl(cps(t))})")
+        shown.append(f"{type(o).__name__}({payload!r}) -> {t!r}")
+        ctx.hist("literal_repr_tie", ("exact " if exact else "subclass of ") + type(payload).__name__)
+    tab = sorted({c for t in texts for c in map(ord, t) if c >= 0x80 and chr(c).isprintable()})
+    defs = "Local Open Scope N_scope.\nDefinition ptab : list N := " + coq_nl(tab) + ".\n"
+    bad, log = vlib.coq_bad_idx("c16_litrepr", "PyStrLit PyLit LitRepr", "From VerifGen Require Import K116a.", defs, cases,
+                                "lr_case_ok (tab_oracle ptab) literal_repr_bases literal_repr_hit literal_repr_fallback",
+                                "(lit * bool * list N) * list N", shard=500, needs=["theories/LitRepr.vo", "gen/K116a.vo"])
+    name = "K116a-table(LitRepr.lr_model)-vs-helpers.literal_repr"
+    if bad is None:
+        ctx.correspondence(name, len(cases), -1, log)
+        ctx.not_shown("translation validation " + name, log)
+    else:
+        ctx.correspondence(name, len(cases), len(bad), "; ".join(shown[i][:100] for i in bad[:6]))
+        if bad:
+            ctx.not_shown("translation validation " + name, "; ".join(shown[i][:120] for i in bad[:6]))
+    ctx.count(n=len(cases))
+
+
 def _corr(ctx, name, imports, defs, cases, okf, ctype, show):
     bad, log = vlib.coq_bad_idx("c16_" + name.split("-vs-")[0].replace("-", "_"), imports, "", defs, cases, okf, ctype,
                                 shard=500, needs=["theories/PyStrLit.vo", "theories/PyLit.vo"])
@@ -1312,7 +1383,7 @@ def oracle(ctx: vlib.Ctx, boost: bool = False):
 # the check
 # ---------------------------------------------------------------------------
 
-THEOREMS = ["C16_use_stable", "C16_text_use", "C16_site_use", "C16_site_use_whole", "C16_key_eq_exact", "C16_float_inert", "C16_ident_sites", "C16_ident_site", "C16_line_literal", "C16_line_literal_bytes", "C16_site_line", "C16_render_eval", "C16_sites_full", "C16_site_value", "C16_default_branches_safe", "C16_default_literal_general",
+THEOREMS = ["C16_literal_repr_general", "C16_literal_repr_inert", "C16_literal_repr_eval", "C16_literal_repr_refuted", "C16_use_stable", "C16_text_use", "C16_site_use", "C16_site_use_whole", "C16_key_eq_exact", "C16_float_inert", "C16_ident_sites", "C16_ident_site", "C16_line_literal", "C16_line_literal_bytes", "C16_site_line", "C16_render_eval", "C16_sites_full", "C16_site_value", "C16_default_branches_safe", "C16_default_literal_general",
             "C16_default_literal", "C16_repr_tuple_refuted", "C16_repr_lex", "C16_ascii_lex", "C16_repr_bytes_lex", "C16_repr_clean", "C16_raw_plain_lex",
             "C16_raw_refuted", "C16_sites", "C16_site_literal", "C16_site_guarded", "C16_ident_char_inert",
             "C16_site_literal_bytes"]
@@ -1370,7 +1441,7 @@ def run(ctx: vlib.Ctx):
         "site_ok looks at the static text of the f-string around the value (before: no quote/#/backslash, last char not an identifier "
         "char; after: not a quote), not at text contributed by other placeholders of the same line",
     ]
-    br = ctx.theorems("props/C16_strings.vo", THEOREMS, kernels=["K10"])
+    br = ctx.theorems("props/C16_strings.vo", THEOREMS, kernels=["K10", "K116a"])
     rep = k10_evidence(ctx)
     if not br.ok:
         # say which half broke: the pure string-literal theorems do not depend on /repo
@@ -1393,6 +1464,7 @@ def run(ctx: vlib.Ctx):
             ctx.not_shown("coqchk VerifProps.C16_strings", log[-800:])
     model_tie(ctx)
     lit_tie(ctx)
+    literal_repr_tie(ctx)
     float_law(ctx)
     broken = bool(ctx.unshown)
     oracle(ctx, boost=broken)
